@@ -40,6 +40,11 @@ func (d *dgraph) findCycle(from string, stack map[string]struct{}, visited map[s
 		if _, ok := stack[to]; ok {
 			return p2
 		}
+		if _, ok := visited[to]; ok {
+			// explored to the end on an earlier path: no cycle through it. Walking it again
+			// for every path that reaches it takes time exponential in the depth of a diamond.
+			continue
+		}
 
 		if cycle := d.findCycle(to, stack, visited, p2); cycle != nil {
 			return cycle
